@@ -205,6 +205,7 @@ class Evaluator:
         self.depth = 0
         self.max_depth = max_depth
         self.unknown_calls = []     # external callees given no model (uninterpreted)
+        self.gvar_reads = set()     # ids of the namespace-scope variables read on the evaluated paths
         self.trace_calls = []       # (caller id, callee id) edges followed
         self.fold = fold_constants
         self.leaf_info = {}         # leaf name -> {"type": quantity type, ...}
@@ -731,6 +732,7 @@ class Evaluator:
         v = self.F.vars.get(e["v"])
         if v is None:
             raise Inconclusive("unknown global")
+        self.gvar_reads.add(v["id"])
         return self.global_value(v, e)
 
     def global_value(self, v, e=None):
